@@ -40,8 +40,7 @@ def IsDeviceTopic (valid : Bytes → Bool) (topic g rest n d : Bytes) : Prop :=
 topic that continues with further segments after the host id; both forms are spelled out. -/
 def IsStateTopic (valid : Bytes → Bool) (topic h : Bytes) : Prop :=
   ∃ ns, NoSlash ns ∧ NoSlash h ∧ valid h = true ∧
-    (topic = ns ++ SLASH :: (STATE ++ SLASH :: h) ∨
-     ∃ more, topic = ns ++ SLASH :: (STATE ++ SLASH :: (h ++ SLASH :: more)))
+    topic = ns ++ SLASH :: (STATE ++ SLASH :: h)
 
 /-- the topic has one of the three shapes -/
 def HasShape (valid : Bytes → Bool) (topic : Bytes) : Prop :=
